@@ -95,6 +95,13 @@ def gen_doc(rng, big=False):
                 for n in list(doc.get(sec, {}))[::2]:
                     md0 = doc[sec][n]
                     doc[sec][n] = dict(md0, hotfix=rng.randrange(1000)) if isinstance(md0, dict) else [md0, "hotfix"]
+    if rng.random() < 0.35:
+        # top-level fields whose names resemble the two artifact sections but are NOT sections
+        nm = rng.choice(["packages.whl", "packages.removed", "packages2", "packages.", "Packages", "packages.conda ", "packages.conda.old", "packages_conda"])
+        val = {"extra-1.0-0.whl": {"name": "extra"}, "x": 1}
+        if allnames and rng.random() < 0.5:
+            val[allnames[0]] = {"name": "shadow", "n": rng.randrange(100)}  # same name as a real artifact, other metadata
+        doc[nm] = rng.choice([val, [1, 2], "str", {}])
     extra = rng.random() < 0.5
     if extra:
         doc["removed"] = [jsonvals.rand_string(rng, 5)]
